@@ -1,4 +1,4 @@
-import EventppVerif.CL.Model
+import EventppVerif.CL.WFCheck
 /- Driver mode `inv`: evaluates the structural invariant the proofs rely on (`WF`, CL/WF.lean) on the RAW
    pointer dumps of the real CallbackList objects printed by harness/seq_cl.cpp after every top-level
    command:  `dump L head tail cur |`  and  `nodes id,prev,next,counter,cb ...`. -/
@@ -11,23 +11,8 @@ def toks (line : String) : List String :=
 def nat! (s : String) : Nat := s.toNat?.getD 0
 def opt (s : String) : Option Nat := if s = "-" then none else s.toNat?
 
-def walkBack (h : Heap) : Nat → Option Nat → List Nat
-  | 0, _ => []
-  | _ + 1, none => []
-  | f + 1, some n => n :: walkBack h f (h n).prev
-
-/-- the executable form of `WF`: forward chain = reversed backward chain, no duplicates, every chained node
-    has a generation in `[1, cur]`; returns a description of the first violated clause -/
-def wfCheck (h : Heap) (head tail : Option Nat) (cur fuel : Nat) : Option String :=
-  let fwd := chainOf h fuel head
-  let bwd := walkBack h fuel tail
-  if fwd.length ≥ fuel then some "the next-chain from head does not end (cycle)"
-  else if bwd.length ≥ fuel then some "the previous-chain from tail does not end (cycle)"
-  else if fwd ≠ bwd.reverse then some s!"head/next chain {fwd} is not the reverse of tail/previous chain {bwd}"
-  else if !fwd.Nodup then some s!"a node occurs twice in the chain {fwd}"
-  else match fwd.find? (fun n => (h n).counter == 0 || decide ((h n).counter > cur)) with
-    | some n => some s!"chained node {n} has generation {(h n).counter} outside [1, currentCounter = {cur}]"
-    | none => none
+-- `wfCheck` (the executable form of `WF`) lives in the library with its soundness theorem
+-- `wfCheck_sound` (CL/WFCheck.lean).
 
 def main (lines : Array String) : IO Unit := do
   let out ← IO.getStdout
